@@ -365,7 +365,8 @@ class Ctx:
             # the state the operands report NOW (after any in-place change)
             self.leaf_data = [(np.array(f.array, copy=True), np.array(f.valid, copy=True)) for f in leaves]
             if leaves:
-                self.n = [int(k) for k in leaves[0].mesh.n]
+                li = leaf_indices(case["expr"])
+                self.n = [int(k) for k in leaves[li[0] if li else 0].mesh.n]
         self.t1, self.t2 = {}, {}
         self.ambiguous = False
         self.keys_exact = True
@@ -402,6 +403,26 @@ class Ctx:
             self.t2[k_] = complex(c)
 
 
+def leaf_indices(e):
+    if e[0] == "leaf":
+        return [e[1]]
+    if is_const(e):
+        return []
+    if e[0] == "un":
+        return leaf_indices(e[3])
+    return leaf_indices(e[3]) + leaf_indices(e[4])
+
+
+def contains_arr(e):
+    if is_const(e):
+        return e[0] == "arr"
+    if e[0] == "un":
+        return contains_arr(e[3])
+    if e[0] == "bin":
+        return contains_arr(e[3]) or contains_arr(e[4])
+    return False
+
+
 def lowprec_consts(e):
     if is_const(e):
         return ctype_of(e) in LOWPREC
@@ -426,6 +447,7 @@ def ev_ref(e, ctx):
     if k == "leaf":
         if ctx.leaf_data is not None:
             arr, valid = ctx.leaf_data[e[1]]
+            ctx.see(arr)
             return Ref(arr, to_exact(arr), valid, [e[1]])
         fd = case["fields"][e[1]]
         n = case["meshes"][fd["mesh"]]["n"]
@@ -483,6 +505,12 @@ def ev_ref(e, ctx):
         op, arg = e[1], e[2]
         a, b = ev_ref(e[3], ctx), ev_ref(e[4], ctx)
         fa, fb, xa, xb = a.fl, b.fl, a.ex, b.ex
+        if op in ("mul", "dot", "cross", "angle") or (op == "uf2" and arg == "multiply"):
+            # products that cancel (f x f, complex a*b): the rounding error is relative to |a| |b|
+            ma = np.abs(np.asarray(fa, dtype=complex))
+            mb = np.abs(np.asarray(fb, dtype=complex))
+            if ma.size and mb.size:
+                ctx.see(float(np.max(ma)) * float(np.max(mb)))
         alg = op if op in ALG else (BIN_ALG[arg].lower() if op == "uf2" and arg in BIN_ALG else None)
         if op in ALG:
             alg = op
@@ -1687,7 +1715,12 @@ def run_case(c):
             pass
         obs_extra["steps_failed"] = js(apply_steps(c, leaves))
         meshes = meshes + [f.mesh for f in leaves]
-    n = [int(k) for k in (leaves[0].mesh.n if leaves else meshes[0].n)]
+    used_leaves = leaf_indices(e)
+    first = leaves[used_leaves[0]] if used_leaves else (leaves[0] if leaves else None)
+    n = [int(k) for k in (first.mesh.n if first is not None else meshes[0].n)]
+    # a partly refused in-place rotation can leave the operands with different n: per-cell constants then
+    # have no common shape
+    shapes_differ = len({tuple(int(k) for k in leaves[i].mesh.n) for i in used_leaves}) > 1
     consts = make_consts(e, n)
     before = ([snapshot(f) for f in leaves], const_snapshot(consts))
     st, r = attempt(lambda: ev_impl(e, leaves, n, consts))
@@ -1870,6 +1903,8 @@ def run_case(c):
     coq = None
     if ctx.ambiguous:
         obs["signed_zero_table"] = True     # outside the rational model: oracle-only
+    elif shapes_differ and contains_arr(e):
+        obs["operands_of_different_shape"] = True
     elif ref is not None or st != "ok":
         if ref is not None:
             exact = ctx.all_exact and ctx.keys_exact
